@@ -4,6 +4,8 @@
    inside the forall. *)
 From Coq Require Import ZArith QArith Qminmax List Bool.
 From QV Require Import Base.ZQ Base.FL Quant.Fixed QTools.Types QTools.Ops QTools.LayerMap.
+From QVGen Require Import QToolsOps.
+From QV Require Import Link.QToolsLink.
 Import ListNotations.
 Open Scope Z_scope.
 
@@ -85,6 +87,23 @@ Theorem C18_quantized_bits_values_fit_reported_type :
   frac_bits (qt_of_qbits c) = - Quant.Fixed.qb_se c /\ code_ok (qt_of_qbits c) (Quant.Fixed.qb_code c a b).
 Proof. exact qbits_value_fits_reported_type. Qed.
 Print Assumptions C18_quantized_bits_values_fit_reported_type.
+
+Theorem C18_quantized_relu_values_fit_reported_type :
+  forall (c : Quant.Fixed.qrelu) a b, 0 <= Quant.Fixed.qr_nsb c ->
+  (forall s, Quant.Fixed.qr_slope c = Some s -> 0 <= s <= Quant.Fixed.qr_nsb c) ->
+  let t := qt_of_qrelu (Quant.Fixed.qr_bits c) (Quant.Fixed.qr_int c) (qr_leaky c) in
+  frac_bits t = - Quant.Fixed.qr_se c /\ code_ok t (Quant.Fixed.qr_code c a b).
+Proof. exact qrelu_value_fits_reported_type. Qed.
+Print Assumptions C18_quantized_relu_values_fit_reported_type.
+
+(* tie to the source (T): the conversion of qkeras quantizers into qtools types, regenerated from quantizer_impl.py on
+   this run, is the type these bridge theorems are about; the layer rules of Ops.v are linked by C16 / C17 *)
+Theorem C18_source_conversion_is_the_model : forall bits int (kn sym lk : bool),
+  translation_ok = true /\
+  gen_conv_QuantizedBits bits int kn = qt_of_qbits (Quant.Fixed.QB bits int kn sym) /\
+  gen_conv_QuantizedRelu bits int lk = qt_of_qrelu bits int lk.
+Proof. intros. split; [exact link_translation_ok|]. split; [apply link_conv_QuantizedBits | apply link_conv_QuantizedRelu]. Qed.
+Print Assumptions C18_source_conversion_is_the_model.
 
 (* weight-based estimator: with the bias added once, (n1, n0) bound every output over the input box *)
 Theorem C18_estimator_bounds_every_output :
